@@ -702,17 +702,20 @@ func (r *pReplay) run(g *mbt.Graph, seq []int) {
 			r.infra = append(r.infra, fmt.Sprintf("parts[%s]: built index %d for %s", r.inst.Name, part.Index, mbt.Compact(e.Act)))
 			return
 		}
-		if a.Res == "panic" && a.Idx < 0 {
-			// negative index: AddPart has no lower bound and panics (index out of range).
-			// Robustness against it is property C16's; executed once per instantiation on a
-			// throw-away set to record the observation, otherwise skipped.
-			if r.negPanic == 0 {
-				wp, werr := wirePart(part, s.height, 0)
-				if werr == nil {
-					_, _, pan := safeAdd(types.NewPartSetFromHeader(s.header), wp)
-					if pan != "" {
-						r.negPanic = 1
-					} else {
+		if a.Idx < 0 {
+			// negative index: robustness against it is property C16's. The class is executed on a
+			// throw-away set; a difference from the specification (rejected with the index error)
+			// is recorded as drift, not as a C12 violation.
+			if wp, werr := wirePart(part, s.height, 0); werr == nil {
+				added, _, pan := safeAdd(types.NewPartSetFromHeader(s.header), wp)
+				switch {
+				case pan != "":
+					r.negPanic = 1
+				case added:
+					r.violate("parts/addpart/shift/negative-index-added", fmt.Sprintf("[%s] a part with index %d was accepted", r.inst.Name, a.Idx), r.record(s, trace, a, "added"))
+					return
+				default:
+					if r.negPanic == 0 {
 						r.negPanic = 2
 					}
 				}
